@@ -93,16 +93,6 @@ Ltac fin_pl :=
   cbn [pd_with_pl pd_with_tasks pd_with_exists pd_tasks pd_pl pd_exists links first lastb t_head t_tail t_last t_count t_items];
   norm_links; close_tl.
 
-(* a condition of any shape (negations, early-return forms): split on the innermost comparison *)
-Ltac cond_any :=
-  match goal with
-  | |- context[if ?c =? 0 then _ else _] =>
-      match c with
-      | context[(?a <? ?b)] => destruct (Z.ltb_spec a b); cbn [b2z Z.eqb negb]; try (exfalso; lia)
-      | context[(?a <=? ?b)] => destruct (Z.leb_spec a b); cbn [b2z Z.eqb negb]; try (exfalso; lia)
-      | context[(?a =? ?b)] => lazymatch a with context[b2z] => fail | _ => destruct (Z.eqb_spec a b); cbn [b2z Z.eqb negb]; try (exfalso; lia) end
-      end
-  end.
 Ltac pl_exec' :=
   repeat (sym_exec || (progress rewrite ?Nat2Z.id) || (rewrite nth_map_get by lia) || (rewrite nth_lset_val)
           || (rewrite set_z_zn' by (rewrite ?lset_length; lia)) || (rewrite nth_z_zn by (rewrite ?lset_length; lia)) || cond_any || cond_step || cond_eq).
